@@ -7,7 +7,7 @@ from .. import ndarr
 from ..ndarr import Arr, InterpRaise
 from ..absint import Interp
 from ..libmodels import Models
-from ..paths import approx_paths, path_text
+from ..paths import approx_paths, path_text, only_negligible
 
 RULES = {
     'R-WINDOW': 'abstract run of fd_derivative on a symbolic grid with the calls of fd_weights intercepted: every output du[t] is '
@@ -15,6 +15,9 @@ RULES = {
                 'requested n; S has at least 2*(n//2 + m) + 1 distinct nodes (so, with exact Lagrange weights - C15 - the result is '
                 'exact for polynomials of degree <= 2*(n//2 + m))',
     'R-COVER': 'the output has the length of the input and every grid index is written exactly once',
+    'R-EXACT': 'unintercepted abstract run on grids c + s*g_k (g uniform, descending uniform and quadratically stretched; c, s symbolic) '
+               'with samples of a polynomial of degree 2*(n//2 + m) whose coefficients are symbols: every du[t] equals the n-th '
+               'derivative of that polynomial at x_t (exact rational identity), whatever route fd_weights takes for such a stencil',
 }
 
 
@@ -27,7 +30,7 @@ def run(ctx):
         'abstract interpretation with the fd_weights calls intercepted (views of the grid carry their index sets).')
     rep.assume('C15 holds: fd_weights(x[S], x0, n) are the exact weights of the n-th derivative at x0 on the nodes x[S]')
     for rid, text in RULES.items():
-        rep.rule(rid, text, 10)
+        rep.rule(rid, text, 10 if rid != 'R-EXACT' else 6)
     fb = ctx.repo.module('fornberg')
     fn = ctx.repo.func('fornberg', 'fd_derivative')
     where = fb.where(fn)
@@ -39,7 +42,68 @@ def run(ctx):
             size = 2 * mm + 2
             for N in sorted({size, size + 1, size + 4}):
                 one(ctx, where, n, m, N)
+    for n, m in ((1, 1), (1, 2), (2, 2), (2, 3), (3, 1)) if ctx.tier == 'quick' else ((1, 1), (1, 2), (2, 2), (2, 3), (3, 1), (1, 3), (1, 4), (2, 1), (4, 2)):
+        mm = n // 2 + m
+        N = 2 * mm + 4
+        for gname, g in (('uniform', [Fr(k) for k in range(N)]), ('uniform descending', [Fr(-k) for k in range(N)]),
+                         ('stretched', [Fr(k) + Fr(k * k, 7) for k in range(N)])):
+            exact(ctx, where, n, m, g, gname)
     rep.notes['trusted_base'] = ['python ast', 'ndverif abstract interpreter (array views with exact index sets)', 'C15']
+
+
+def exact(ctx, where, n, m, g, gname):
+    import math
+    from ..algebra import alg_equal
+    from ..engine import budget
+    rep = ctx.rep
+    mm = n // 2 + m
+    D = 2 * mm
+    label = 'n=%d/m=%d/len(x)=%d/%s grid' % (n, m, len(g), gname)
+    C, S = Poly.sym('c'), Poly.sym('s')
+    a = [Poly.sym('a%d' % d) for d in range(D + 1)]
+    xs = [C + S * gk for gk in g]
+    fx = []
+    for gk in g:
+        v = Poly.const(0)
+        for d in range(D + 1):
+            v = v + a[d] * (S * gk) ** d
+        fx.append(v)
+    ndarr.POSITIVE_ATOMS.add('s')
+    try:
+        records = []
+
+        def body(oracle):
+            models = Models()
+            I = Interp(ctx.repo, models, branch_oracle=oracle)
+            models.bind(I)
+            return I.get_global('fornberg', 'fd_derivative')(Arr((len(g),), fx), Arr((len(g),), xs), n, m)
+        with budget(90, 'fd_derivative exact n=%d m=%d' % (n, m)):
+            paths = approx_paths(body, records=records)
+        label0 = label
+        for (decisions, du, exc), rec in zip(paths, records):
+            label = label0 + ('' if not decisions else '/' + path_text(decisions))
+            if exc is not None:
+                rep.violation('R-EXACT', 'fornberg.fd_derivative', where, {'raises': exc.exc_name, 'message': exc.msg[:100]},
+                              'the exact derivative', label, key='exact raises')
+                continue
+            if rec and any(o for _, o in rec) and only_negligible(rec):
+                continue          # equality up to rounding: a refinement of the runs where the operands are identical
+            bad = []
+            if not isinstance(du, Arr) or du.shape != (len(g),):
+                bad.append('shape %r' % (getattr(du, 'shape', None),))
+            else:
+                for t, gk in enumerate(g):
+                    want = Poly.const(0)
+                    for d in range(n, D + 1):
+                        want = want + a[d] * (math.factorial(d) // math.factorial(d - n)) * (S * gk) ** (d - n)
+                    if not alg_equal(du[t], want):
+                        bad.append('du[%d] = %s, exact %s' % (t, repr(du[t])[:70], repr(want)[:70]))
+            rep.check(not bad, 'R-EXACT', 'fornberg.fd_derivative', where, {'points': len(g), 'degree': D, 'mismatches': bad[:2]},
+                      'the n-th derivative of the sampled polynomial at every grid point', label, key='exact')
+    except AnalysisError as exc:
+        rep.undecided('R-EXACT', 'fornberg.fd_derivative', exc, label)
+    finally:
+        ndarr.POSITIVE_ATOMS.discard('s')
 
 
 def one(ctx, where, n, m, N):
